@@ -216,6 +216,11 @@ func init() {
 			if t.pkg == "uu" {
 				texts = append(texts, strings.Repeat("g", 36), strings.Repeat("g", 45))
 			}
+			// multi-byte characters around the package's default limit: the byte length is over the
+			// limit while the number of characters is not (and the other way round at the limit itself)
+			lim := map[string]int{"date": 10, "roman": 128, "sem": 1024, "size": 128, "uu": 45}[t.pkg]
+			texts = append(texts, strings.Repeat("\u00e9", lim/2+1), strings.Repeat("\u00e9", lim/2), strings.Repeat("\u65e5", lim/3+1), "1"+strings.Repeat("\u00a0", lim/2)+"0",
+				"1"+strings.Repeat("\u00a0", lim/2-1)+"0", g.good[0]+strings.Repeat("\u00a0", (lim-len(g.good[0]))/2+1))
 			for xi, text := range texts {
 				if !d.Mine(ti*100 + xi) {
 					continue
